@@ -1407,6 +1407,18 @@ mut("C17", "add-alias-keeps-first", "R17-6|shell::Shell::add_alias|overwrite", "
     (S, "        self.aliases.insert(name.to_string(), value.to_string());",
      "        self.aliases.entry(name.to_string()).or_insert_with(|| value.to_string());"))
 
+mut("C04", "unmatched-redirect-word-dropped", "R04-9|parsers::parser_line::tokens_to_redirections|token-dropped",
+    "a word with `>` that fits no spelling vanishes silently",
+    (P, """        } else {
+            return Err(String::from("redirection syntax error"));
+        }
+    }
+
+    if to_be_continued {""", """        }
+    }
+
+    if to_be_continued {"""))
+
 # ------------------------------------------------------------------ more refactors
 ref("history-params-vec", ["C18"], "bind the INSERT parameters through a params! style slice",
     (H, "    match conn.execute(&sql, [line.trim(), info.as_str()]) {",
